@@ -367,19 +367,27 @@ def run_histories(ctx):
     import copy
     m = ctx.model
     uris = {"A": REG1, "B": "https://client.example/cb2", "C": REG2}
+    # ("set", uris): a registration update on the same client object; ("replace", uris): the integrator's store now holds a NEW record
+    # for the client id (what a database row read again after an update is)
     scripts = [["A", ("set", ["B"]), "A", "B", None], ["A", "A", ("set", ["A", "B"]), "B", ("set", ["B"]), "A", None, "B"],
-               [None, ("set", ["C", "A"]), None, "A", ("set", []), "A", None], ["B", ("set", ["B"]), "B", ("set", ["A"]), "B", "A"]]
+               [None, ("set", ["C", "A"]), None, "A", ("set", []), "A", None], ["B", ("set", ["B"]), "B", ("set", ["A"]), "B", "A"],
+               ["A", ("replace", ["B"]), "A", "B", None], ["A", "A", ("replace", ["A", "B"]), "B", ("replace", ["B"]), "A", "B"]]
     for si, script in enumerate(scripts):
-        for cid in ("c1", "p1"):
+        for cid, rt in (("c1", "code"), ("p1", "code"), ("p1", "token")):
             store, srv = build(None, [], False)
             reg = copy.deepcopy(CLIENTS)
             for step_no, step in enumerate(script):
                 cur = next(c for c in reg if c["id"] == cid)
                 if isinstance(step, tuple):
                     cur["redirect_uris"] = [uris[x] for x in step[1]]
-                    store.clients[cid].update_metadata(redirect_uris=list(cur["redirect_uris"]))
+                    if step[0] == "replace":
+                        old_c = store.clients[cid]
+                        store.clients[cid] = S.Client(cid, old_c.client_secret, list(cur["redirect_uris"]), cur["scope"], ["authorization_code", "implicit"],
+                                                      cur["response_types"], cur["auth_method"])
+                    else:
+                        store.clients[cid].update_metadata(redirect_uris=list(cur["redirect_uris"]))
                     continue
-                q = [("response_type", "code"), ("client_id", cid), ("state", "st"), ("scope", "a")] + ([("redirect_uri", uris[step])] if step else [])
+                q = [("response_type", rt), ("client_id", cid), ("state", "st"), ("scope", "a")] + ([("redirect_uri", uris[step])] if step else [])
                 try:
                     resp = srv.create_authorization_response(S.HReq("GET", "https://as.example/authorize?" + url_encode(q), None, {}), grant_user=S.User("alice"))
                     got = outcome(resp, [u for c in reg for u in c["redirect_uris"]] + list(uris.values()))
@@ -388,7 +396,8 @@ def run_histories(ctx):
                 mod = m.call("authorize_respond", {"config": {"clients": reg, "scopes_supported": [], "used_nonces": [], "require_nonce": False},
                                                    "query": [[k.encode(), v.encode()] for k, v in q], "form": [], "approve": True})
                 case = {"history": si, "client": cid, "step": step_no, "script": [list(x) if isinstance(x, tuple) else x for x in script], "registered_now": cur["redirect_uris"]}
-                ctx.case(case, ("history", si, cid, step_no), "history:%s" % got[0])
+                case["response_type"] = rt
+                ctx.case(case, ("history", si, cid, rt, step_no), "history:%s" % got[0])
                 ctx.compare("authorize_respond", case, got, mod)
                 want = (uris[step] if uris[step] in cur["redirect_uris"] else None) if step else (cur["redirect_uris"][0] if cur["redirect_uris"] else None)
                 if got[0] in ("redirect", "form_post") and got[1] != want:
